@@ -156,10 +156,18 @@ def check(tier, seed, replay=None):
         if p.get("ast") and not p["split"]:
             recs.append({"case": len(recs), "kind": "eval", "ast": p["ast"], "ctx": EL.ctx_of(p["input"]), "res": EL.observed_value(o, "s0")})
             descs.append({"kind": "eval/" + p["kind"], "argv": cases[i]["argv"], "input": G.canonical(p["input"]).decode("utf-8"), "row": (rows or [""])[0][:400]})
+    if not replay:
+        trecs, tdescs, truns = EL.twin_records(jvh, rnd, 42 if quick else 1400, len(recs))
+        for d in tdescs:
+            d.update({"argv": d["bound"], "row": d["observed"][0]["stdout"][:200]})
+            chk.nontrivial.add((tuple(d["bound"]), d["input"]))
+        recs += trecs
+        descs += tdescs
+        chk.evaluations_extra = truns
     flags, res = run_trace_spec("Trace_Expr", recs, "c12", nproc=4 if quick else 14)
     skipped = {c for k, c, w in flags if k == "SKIP"}
     chk.traces = len(recs) - len(skipped)
-    chk.evaluations = len(cases)
+    chk.evaluations = len(cases) + getattr(chk, "evaluations_extra", 0)
     for j in sorted({0, len(descs) // 2, len(descs) - 1}):
         chk.sample(descs[j])
     for kind, case, what in flags:
